@@ -149,7 +149,10 @@ func ObjectsToTransactionsAndMetadata(
 	for objI := range objects {
 		object := objects[objI]
 		// check if the object is a transaction:
-		kind := iplddecoders.Kind(object.ObjectData[1])
+		kind, err := iplddecoders.GetKind(object.ObjectData)
+		if err != nil {
+			return nil, fmt.Errorf("object %s: %w", object.Cid, err)
+		}
 		if kind == iplddecoders.KindDataFrame {
 			dataBlocksMap[object.Cid.String()] = object
 			continue
